@@ -109,7 +109,12 @@ func (c Case) sections() (n int) {
 
 // formDefault reports whether a default has to be evaluated to get its value (is not a self-evaluating literal).
 func formDefault(def string) bool {
-	return def != "" && (def[0] == '(' || def[0] == '\'' || (def[0] >= 'a' && def[0] <= 'z' && def != "t" && def != "nil"))
+	return def != "" && (def[0] == '(' || def[0] == '\'' || refDefault(def))
+}
+
+// refDefault reports whether a default is the name of another parameter.
+func refDefault(def string) bool {
+	return def != "" && def[0] >= 'a' && def[0] <= 'z' && def != "t" && def != "nil"
 }
 
 func (c Case) hasFormDefault() bool {
@@ -131,8 +136,8 @@ func argText(a string) string { return strings.ToLower(a) }
 // verdict of the reference binder.
 type verdict struct {
 	reject   string // non-empty: the call must be rejected with an error before the body runs (the reason)
-	dontcare string // non-empty: the property does not fix the outcome (the reason)
-	errOK    bool   // an error is acceptable too (unknown keyword argument)
+	openTail string // non-empty: the keyword part of the call is not fixed by the property (the reason)
+	errOK    bool   // an error is acceptable too (unknown keyword argument, open keyword part)
 	// accept[i] is the set of acceptable texts of parameter i (Params() order); nil = not fixed.
 	accept [][]string
 	// what the call exercises, for the non-triviality rule and the histogram
@@ -140,7 +145,7 @@ type verdict struct {
 }
 
 // defValue evaluates a default form of the closed set: integer, string, keyword, t, nil, (+ i j), (list i j),
-// 'symbol, or the name of an earlier parameter. env maps earlier parameters to their acceptable texts.
+// 'symbol, or the name of an earlier parameter. env maps earlier parameters to their acceptable texts (nil = open).
 func defValue(def string, env map[string][]string) []string {
 	switch {
 	case def == "" || def == "nil":
@@ -161,7 +166,7 @@ func defValue(def string, env map[string][]string) []string {
 		return []string{"(" + strings.Trim(def[6:], ")") + ")"}
 	case def[0] == '(':
 		panic("bad default " + def)
-	case formDefault(def):
+	case refDefault(def):
 		v, has := env[def]
 		if !has {
 			panic("default refers to unknown parameter " + def)
@@ -201,10 +206,18 @@ func bind(c Case) (v verdict) {
 		v.reject = "too many arguments"
 		return
 	}
+	// &rest together with &key: CLHS puts the whole tail into the rest parameter and requires it to be keyword/value
+	// pairs; slip (pinned by its suite: ((lambda (x &optional y &rest z &key k1 k2) ...) 1 2 3 4 :k1 5) binds z to
+	// (3 4)) collects the arguments before the first declared keyword. The property statement does not choose, so the
+	// rest parameter is not judged when keys follow, and a tail that is not made of pairs is open as a whole.
+	both := c.Rest != "" && len(c.Key) > 0
 	if c.Rest != "" {
-		if len(tail) == 0 {
+		switch {
+		case len(tail) == 0:
 			set(c.Rest, []string{"nil"})
-		} else {
+		case both:
+			set(c.Rest, nil)
+		default:
 			ts := make([]string, len(tail))
 			for i, a := range tail {
 				ts[i] = argText(a)
@@ -213,45 +226,58 @@ func bind(c Case) (v verdict) {
 		}
 	}
 	if len(c.Key) > 0 {
-		if len(tail)%2 == 1 {
+		open := func(why string) {
+			// the keyword part is not fixed: an error is fine, and so is any binding of the key parameters
+			v.errOK = true
+			v.openTail = why
+			for _, p := range c.Key {
+				set(p.Name, nil)
+			}
+		}
+		wellFormed := len(tail)%2 == 0
+		for i := 0; wellFormed && i < len(tail); i += 2 {
+			wellFormed = isKeyword(tail[i])
+		}
+		switch {
+		case wellFormed:
+			known := map[string]int{}
+			for i, p := range c.Key {
+				known[":"+p.Name] = i
+			}
+			supplied := make([][]string, len(c.Key))
+			last := -1
+			for i := 0; i < len(tail); i += 2 {
+				ki, has := known[strings.ToLower(tail[i])]
+				if !has {
+					v.unknownKey = true
+					v.errOK = true // slip documents that other keys are allowed; CLHS makes it an error
+					continue
+				}
+				if len(supplied[ki]) > 0 {
+					v.dupKey = true // CLHS: the first one is used; the property leaves it open
+				}
+				if ki < last {
+					v.keyOutOfOrder = true
+				}
+				last = ki
+				supplied[ki] = append(supplied[ki], argText(tail[i+1]))
+			}
+			for i, p := range c.Key {
+				if len(supplied[i]) > 0 {
+					set(p.Name, supplied[i])
+				} else {
+					v.usedDefault = true
+					set(p.Name, defValue(p.Def, env))
+				}
+			}
+		case both:
+			open("&rest and &key with a tail that is not keyword/value pairs")
+		case len(tail)%2 == 1:
 			v.reject = "odd number of keyword arguments"
 			return
-		}
-		known := map[string]int{}
-		for i, p := range c.Key {
-			known[":"+p.Name] = i
-		}
-		supplied := make([][]string, len(c.Key))
-		last := -1
-		for i := 0; i < len(tail); i += 2 {
-			k := tail[i]
-			if !isKeyword(k) {
-				// CLHS 3.5.1.5 leaves the consequences open outside safe code; the property statement is silent
-				v.dontcare = "a non-keyword in keyword position"
-				return
-			}
-			ki, has := known[strings.ToLower(k)]
-			if !has {
-				v.unknownKey = true
-				v.errOK = true // slip documents that other keys are allowed; CLHS makes it an error
-				continue
-			}
-			if len(supplied[ki]) > 0 {
-				v.dupKey = true // CLHS: the first one is used; the property leaves it open
-			}
-			if ki < last {
-				v.keyOutOfOrder = true
-			}
-			last = ki
-			supplied[ki] = append(supplied[ki], argText(tail[i+1]))
-		}
-		for i, p := range c.Key {
-			if len(supplied[i]) > 0 {
-				set(p.Name, supplied[i])
-			} else {
-				v.usedDefault = true
-				set(p.Name, defValue(p.Def, env))
-			}
+		default:
+			// CLHS 3.5.1.5 leaves the consequences open outside safe code; the property statement is silent
+			open("a non-keyword in keyword position")
 		}
 	}
 	for _, p := range c.Aux {
